@@ -36,9 +36,13 @@ FsSeq == << <<"units", "", 0>>, <<"cost", "", 0>>,
             <<"convert", "EUR", 0>>, <<"convert", "EUR", D2>>, <<"convert", "EUR", DEarly>>, <<"convert", "CAD", 0>> >>
 GenWheres == Wheres12 \cup { <<"M", "S">>, <<"S">>, <<"BT">> }
 GenTargets == Targets12 \cup { <<"S", "B">>, <<"B", "B", "S", "B">>, <<"S">> }
+(* balance under an enclosing expression (function call: XB, BX; short-circuit operator: XL) whose other operand is
+   NULL / decides on the postings marked in `nul` *)
+GenNested == { <<"XB">>, <<"BX">>, <<"XB", "XB">>, <<"XB", "BX">>, <<"B", "XB">>, <<"S", "XB">>, <<"XB", "S", "BX">>,
+               <<"XL">>, <<"XL", "XL">>, <<"S", "XL">> }
 
 P0 == [ledger |-> <<>>, mask |-> <<>>, where |-> <<>>, targets |-> <<>>, subbal |-> TRUE, agg |-> FALSE,
-       grp |-> <<>>, pt |-> 1]
+       grp |-> <<>>, pt |-> 1, nul |-> <<>>, pt2 |-> 1]
 
 CInit == InitWith([t \in Threads |-> P0]) /\ phase = "length" /\ want = 0 /\ turn = 0 /\ hist = <<>>
 CNext ==
@@ -50,8 +54,16 @@ CNext ==
              prog' = [prog EXCEPT ![1].ledger = Append(@, p), ![1].mask = Append(@, m), ![1].grp = Append(@, g)]
        /\ UNCHANGED <<ctx, pc, cur, out, subdone, cache, consulted, phase, want, turn, hist>>
     \/ /\ phase = "ledger" /\ Len(prog[1].ledger) = want
-       /\ \E w \in GenWheres, tg \in GenTargets, sb \in BOOLEAN, pt \in 1..Len(PriceTables) :
-             prog' = [prog EXCEPT ![1].where = w, ![1].targets = tg, ![1].subbal = sb, ![1].pt = pt]
+       /\ \E w \in GenWheres, tg \in GenTargets \cup GenNested, sb \in BOOLEAN :
+             prog' = [prog EXCEPT ![1].where = w, ![1].targets = tg, ![1].subbal = sb]
+       /\ phase' = "prices"
+       /\ UNCHANGED <<ctx, pc, cur, out, subdone, cache, consulted, want, turn, hist>>
+    \* (a step of its own: the simulator builds every successor of a state before it picks one)
+    \/ /\ phase = "prices"
+       /\ \E pt \in 1..Len(PriceTables), pt2 \in 1..Len(PriceTables), nu \in [1..Len(prog[1].ledger) -> BOOLEAN] :
+             \* pt2: the price table after the ledger has been edited and attached to the same connection again;
+             \* nu: the postings on which the operand next to balance is NULL (XB, BX) / decides (XL)
+             prog' = [prog EXCEPT ![1].pt = pt, ![1].pt2 = pt2, ![1].nul = nu]
        /\ phase' = "run"
        /\ UNCHANGED <<ctx, pc, cur, out, subdone, cache, consulted, want, turn, hist>>
     \/ /\ phase = "run" /\ Next /\ UNCHANGED <<phase, want, turn, hist>>
@@ -61,8 +73,8 @@ RowsJson(P, rows) ==
         << rows[n].rowid,
            [j \in 1..Len(rows[n].vals) |-> Positions(rows[n].vals[j])],
            IF SubResult(P) = {} THEN 2 ELSE IF rows[n].rowid \in SubResult(P) THEN 1 ELSE 0 >>]
-HomOf(P, S) ==
-    LET pr == PriceTables[P.pt]
+HomOf(P, S, pt) ==
+    LET pr == PriceTables[pt]
         one(I) == LET tot == SumIdx(P.ledger, I)
                   IN [tot |-> Positions(tot),
                       f |-> [i \in 1..Len(FsSeq) |-> Positions(ApplyI(FsSeq[i], tot, pr, 1))]]
@@ -71,10 +83,17 @@ HomOf(P, S) ==
 CaseJson ==
     LET P == prog[1] IN
     [ledger |-> P.ledger, mask |-> P.mask, grp |-> P.grp, where |-> P.where, targets |-> P.targets,
-     subbal |-> P.subbal, prices |-> PriceTables[P.pt], fs |-> FsSeq, mode |-> CacheMode,
-     rows |-> RowsJson(P, out[1]),
-     homall |-> HomOf(P, 1..Len(P.ledger)),
-     homsel |-> HomOf(P, {r \in 1..Len(P.ledger) : P.mask[r]})]
+     subbal |-> P.subbal, prices |-> PriceTables[P.pt], fs |-> FsSeq, mode |-> CacheMode, nul |-> P.nul,
+     \* rows: what the PROPERTY says the statement returns; mech: what the mechanism (as shipped) returned in this
+     \* behaviour -- the same (SerialInv, checked by TLC) except under a short-circuit operator (XL, known finding)
+     rows |-> RowsJson(P, SerialRows(P)),
+     mech |-> RowsJson(P, out[1]),
+     homall |-> HomOf(P, 1..Len(P.ledger), P.pt),
+     homsel |-> HomOf(P, {r \in 1..Len(P.ledger) : P.mask[r]}, P.pt),
+     \* the same ledger attached again with another price table: results depend on the attached data only
+     prices2 |-> PriceTables[P.pt2],
+     homall2 |-> HomOf(P, 1..Len(P.ledger), P.pt2),
+     homsel2 |-> HomOf(P, {r \in 1..Len(P.ledger) : P.mask[r]}, P.pt2)]
 CEmit == (phase = "run" /\ AllDone) => PrintT(ToJson(CaseJson))
 
 -----------------------------------------------------------------------------
